@@ -169,6 +169,8 @@ class FakeUnpickler:
     def __init__(self, items):
         self.items = list(items)      # ("gene", obj) / ("read", obj)
         self.i = 0
+        # as NormalTmpFileAssignmentLoader without a reference: ReadAssignmentLoader.get_next reads it (fix f48e223)
+        self.chr_record = None
 
     def has_next(self):
         return self.i < len(self.items)
